@@ -27,7 +27,7 @@ from common import Driver, tok, untok
 
 PROP = "C18"
 KEY_D5 = "D5:trim-nan-never-matches"
-KEY_D12 = "D12:nothing-kept-1x1-not-empty"
+KEY_D18A = "D18a:nothing-kept-1x1-not-empty"
 
 
 # ---------------------------------------------------------------- rasters
@@ -186,7 +186,7 @@ def oracle(case, status, out, src):
     if exp is None:
         if out.size == 0:
             return None
-        key = KEY_D12 if src.shape == (1, 1) and out.shape == (1, 1) else f"{fn}:nothing-kept"
+        key = KEY_D18A if src.shape == (1, 1) and out.shape == (1, 1) else f"{fn}:nothing-kept"
         if fn == "trim" and (case["ex_form"] == "default" or "nan" in case["ex"]):
             alt = expected(case, src, hits(case, drop_nan=True))
             if alt is not None and same(out, alt, name) is None and src.shape != (1, 1):
@@ -345,7 +345,7 @@ def declare(r):
     r.assumptions[:] = [
         "hand model (Model/Trim.lean) tied to zonal._trim/_crop/trim/crop by the correspondence run only",
         "the model follows the code as repaired by fixes/D5-trim-nan-aware-exclusion.patch and "
-        "fixes/D12-trim-crop-empty-window.patch",
+        "fixes/D18a-trim-crop-empty-window.patch",
         "exclusion / id lists are homogeneous (all ints or all floats) and non-empty: numba rejects the others",
         "NaN is not a zone id (crop compares with ==); an empty result is compared as 'empty' whatever its 0-sized shape",
         "crop with a values raster of another shape than zones: model = Python slice semantics, no oracle",
